@@ -8,6 +8,12 @@ Model of the two extractors on a Unix host:
   { create_dir_all(p)? } }`, `File::create(outpath)?`, `io::copy`; then
   `if let Some(mode) = file.unix_mode() { modes.push((path_depth(filepath), outpath, mode)) }`; after
   the loop `apply_unix_modes(modes)?`: a stable sort by descending depth, then `set_permissions`.
+  The loop is `place_entries(directory, &mut modes)`; when it FAILS, `extract` still calls
+  `apply_unix_modes(modes)` for the modes recorded so far — those of the entries placed completely
+  before the failing one — ignores its result and returns the error of the loop (repair `fix: a failed
+  extract still applies the Unix modes recorded for the entries written so far`; between the repair
+  below and this one a failed run applied no mode at all and left e.g. an entry recorded as 0600 at
+  the umask default).
 * `ZipStreamReader::extract` (src/read/stream.rs): `visit_file` for every local entry — the same
   without the `exists` test and without modes (a streamed entry has no external attributes) — and then
   `visit_additional_metadata` for every central record: `enclosed_name()` or the same error, and the
@@ -107,12 +113,25 @@ def placeFiles (c : Cfg) (chk : Bool) (root : Path) : List EntryView → FS → 
     | (fs1, some er) => (fs1, some er)
     | (fs1, none) => placeFiles c chk root es fs1
 
+/-- How many entries `place_entries` places completely (mode recorded) before the first failure; all
+of them when none fails. -/
+def placedCount (c : Cfg) (chk : Bool) (root : Path) : List EntryView → FS → Nat
+  | [], _ => 0
+  | e :: es, fs =>
+    match placeFile c chk root e fs with
+    | (_, some _) => 0
+    | (fs1, none) => placedCount c chk root es fs1 + 1
+
 /-- `ZipArchive::extract(directory)`: every entry is written; then `apply_unix_modes(modes)`:
 `modes.sort_by_key(|(depth, _, _)| Reverse(*depth))` (stable; `depth = path_depth(filepath)` =
-`pathDepth`) and `set_permissions` in that order (`modeOrder`, Spec/Tree.lean). -/
+`pathDepth`) and `set_permissions` in that order (`modeOrder`, Spec/Tree.lean).  When placing the
+entries fails: the same for the modes of the entries placed before the failing one, up to the first
+`set_permissions` that fails, that failure ignored; the result is the error of the placing. -/
 def extractSeek (c : Cfg) (root : Path) (es : List EntryView) (fs : FS) : FS × Option Err :=
   match placeFiles c true root es fs with
-  | (fs1, some er) => (fs1, some er)
+  | (fs1, some er) =>
+    ((applyModes c root
+        (modeOrder ((es.take (placedCount c true root es fs)).map fun e => (e.name, e.mode))) fs1).1, some er)
   | (fs1, none) => applyModes c root (modeOrder (es.map fun e => (e.name, e.mode))) fs1
 
 /-- `Extractor::visit_additional_metadata` for every central record, in order: `enclosed_name()` or
